@@ -226,3 +226,84 @@ func sortStrings(s []string) {
 }
 
 var _ = fmt.Sprintf
+
+// RetIs selects normal Return instructions whose result #idx has a Desc matching one of the globs.
+func (p *Program) RetIs(idx int, globs ...string) InstrPred {
+	return func(in ssa.Instruction) bool {
+		r, ok := in.(*ssa.Return)
+		if !ok || !IsReturn(in) || idx >= len(r.Results) {
+			return false
+		}
+
+		return GlobAny(globs, p.Desc(r.Results[idx]))
+	}
+}
+
+// AndInstr is the intersection of instruction predicates.
+func AndInstr(ps ...InstrPred) InstrPred {
+	return func(in ssa.Instruction) bool {
+		for _, f := range ps {
+			if !f(in) {
+				return false
+			}
+		}
+
+		return true
+	}
+}
+
+// EdgeSuccs returns the start locations of the successor blocks of every If edge of f that carries
+// a fact matching one of the globs.
+func (p *Program) EdgeSuccs(f *ssa.Function, globs ...string) []Loc {
+	var out []Loc
+
+	if f == nil {
+		return nil
+	}
+
+	for _, b := range f.Blocks {
+		if len(b.Instrs) == 0 {
+			continue
+		}
+
+		ifi, ok := b.Instrs[len(b.Instrs)-1].(*ssa.If)
+		if !ok {
+			continue
+		}
+
+		for k, succ := range b.Succs {
+			for _, fact := range p.Facts(ifi.Cond, k == 0) {
+				if GlobAny(globs, fact) {
+					out = append(out, Loc{succ, 0})
+				}
+			}
+		}
+	}
+
+	return out
+}
+
+// NoReach: obligation that no TARGET is reachable from the given starts (optionally cut).
+func (c *Ctx) NoReach(rule, what string, f *ssa.Function, starts []Loc, minStarts int, target InstrPred, cut CutSpec) bool {
+	construct := FuncName(f) + " :: " + what
+	if !c.NeedFunc(rule, f, construct) {
+		return false
+	}
+
+	if len(starts) < minStarts {
+		c.Unknown(rule, construct, fpos(f), fmt.Sprintf("anchor-unresolved: expected >= %d start edges/instructions, found %d", minStarts, len(starts)))
+
+		return false
+	}
+
+	bad, w := c.P.Reach(starts, target, cut)
+	if bad {
+		c.Bad(rule, construct, fpos(f), "reachable: "+strings.Join(w, " "))
+
+		return false
+	}
+
+	c.OK(rule, construct, fpos(f), fmt.Sprintf("unreachable from %d start(s)", len(starts)))
+
+	return true
+}
